@@ -669,6 +669,12 @@ pub enum Profile {
     Wild,
     /// many ground impls, goals with unknowns: answer enumeration (C03)
     Enum,
+    /// small dense propositional programs: few concrete types, several traits of one kind, impls for
+    /// concrete types whose where-clauses are concrete atoms; goals = all atoms (cycles whose head fails,
+    /// members that are asked later, diamonds)
+    Cyc,
+    /// Cyc with a bias towards auto traits over (mutually) recursive structs with negative impls
+    CycAuto,
 }
 
 pub fn available() -> bool {
@@ -702,7 +708,143 @@ fn rand_ty(rng: &mut Rng, ar: &[(String, usize)], depth: usize, params: &[String
     Ty::Adt(n, (0..k).map(|_| rand_ty(rng, ar, depth.saturating_sub(1), params, allow_params)).collect())
 }
 
+fn gen_cyc(rng: &mut Rng, auto_bias: bool) -> GenOut {
+    let nty = if auto_bias { rng.range(2, 4) } else if rng.coin(65) { 1 } else { rng.range(2, 3) };
+    let tys: Vec<String> = ["S", "T", "U", "R"].iter().take(nty).map(|s| s.to_string()).collect();
+    let ntr = rng.range(3, 5);
+    let names = ["A", "B", "C", "D", "E"];
+    // kind of the world: all coinductive / all inductive / auto + coinductive / inductive on top of coinductive
+    let mode = if auto_bias && rng.coin(70) { 7 } else { rng.below(10) };
+    let mut traits: Vec<TraitDecl> = vec![];
+    for (i, n) in names.iter().take(ntr).enumerate() {
+        let kind = match mode {
+            0..=4 => TraitKind::Co,
+            5 | 6 => TraitKind::Ind,
+            7 | 8 => if i == 0 { TraitKind::Auto } else { TraitKind::Co },
+            _ => if i < 2 { TraitKind::Ind } else { TraitKind::Co },
+        };
+        traits.push(TraitDecl { name: n.to_string(), params: vec![], kind, wcs: vec![] });
+    }
+    let mut prog = Prog::default();
+    for (i, t) in tys.iter().enumerate() {
+        // fields matter for the auto trait only: point at the other types (cycles) 
+        let mut fields = vec![];
+        if mode == 7 || mode == 8 {
+            for _ in 0..rng.range(0, 3) {
+                fields.push(Ty::Adt(rng.pick(&tys).clone(), vec![]));
+            }
+            if rng.coin(40) {
+                fields.push(Ty::Adt(tys[(i + 1) % tys.len()].clone(), vec![]));
+            }
+        }
+        prog.items.push(Item::Adt(AdtDecl { name: t.clone(), params: vec![], fields }));
+    }
+    let tinfo: Vec<(String, TraitKind)> = traits.iter().map(|t| (t.name.clone(), t.kind)).collect();
+    for t in traits {
+        prog.items.push(Item::Trait(t));
+    }
+    for ty in &tys {
+        for (tn, tk) in &tinfo {
+            if !rng.coin(if *tk == TraitKind::Auto { 35 } else { 65 }) {
+                continue;
+            }
+            if *tk == TraitKind::Auto && rng.coin(35) {
+                prog.items.push(Item::Impl(ImplDecl { params: vec![], tr: tn.clone(), args: vec![], self_ty: Ty::Adt(ty.clone(), vec![]), wcs: vec![], positive: false }));
+                continue;
+            }
+            let mut wcs = vec![];
+            let nwc = *rng.pick(&[0usize, 0, 1, 1, 1, 2, 2, 2, 3, 3]);
+            for _ in 0..nwc {
+                let cands: Vec<&(String, TraitKind)> = if *tk == TraitKind::Ind { tinfo.iter().collect() } else { tinfo.iter().filter(|x| x.1 != TraitKind::Ind).collect() };
+                if cands.is_empty() {
+                    continue;
+                }
+                let wt = (*rng.pick(&cands)).clone();
+                let p = Pred { ty: Ty::Adt(rng.pick(&tys).clone(), vec![]), tr: wt.0, args: vec![] };
+                if !wcs.contains(&p) {
+                    wcs.push(p);
+                }
+            }
+            prog.items.push(Item::Impl(ImplDecl { params: vec![], tr: tn.clone(), args: vec![], self_ty: Ty::Adt(ty.clone(), vec![]), wcs, positive: true }));
+        }
+    }
+    // planted template (C05's own words: "a result that relied on a cyclic assumption that later turned out
+    // false"): a cycle head H that also needs a failing atom F, members M.. of the cycle, and an outsider X that
+    // depends on a member; where-clause order randomised. Only among traits of one kind (no mixed cycles).
+    if rng.coin(35) {
+        let co: Vec<&(String, TraitKind)> = tinfo.iter().filter(|t| t.1 == TraitKind::Co).collect();
+        let ind: Vec<&(String, TraitKind)> = tinfo.iter().filter(|t| t.1 == TraitKind::Ind).collect();
+        let same = if co.len() * tys.len() >= 4 && (ind.len() * tys.len() < 4 || rng.coin(60)) { co } else { ind };
+        let pool: Vec<(String, String)> = tys.iter().flat_map(|ty| same.iter().map(move |t| (ty.clone(), t.0.clone()))).collect();
+        if pool.len() >= 4 {
+            let mut atoms = pool.clone();
+            rng.shuffle(&mut atoms);
+            let k = if atoms.len() >= 5 && rng.coin(40) { 2 } else { 1 };
+            let h = atoms[0].clone();
+            let ms: Vec<(String, String)> = atoms[1..1 + k].to_vec();
+            let x = atoms[1 + k].clone();
+            let f = atoms[2 + k].clone();
+            let used: Vec<(String, String)> = atoms[..3 + k].to_vec();
+            // drop the random impls of the template's atoms
+            prog.items.retain(|it| match it {
+                Item::Impl(im) => !used.iter().any(|(ty, tr)| im.tr == *tr && matches!(&im.self_ty, Ty::Adt(n, _) if n == ty)),
+                _ => true,
+            });
+            let atom = |a: &(String, String)| Pred { ty: Ty::Adt(a.0.clone(), vec![]), tr: a.1.clone(), args: vec![] };
+            let mk = |a: &(String, String), mut wcs: Vec<Pred>, rng: &mut Rng| {
+                rng.shuffle(&mut wcs);
+                Item::Impl(ImplDecl { params: vec![], tr: a.1.clone(), args: vec![], self_ty: Ty::Adt(a.0.clone(), vec![]), wcs, positive: true })
+            };
+            let mut hw = vec![atom(&ms[0])];
+            if rng.coin(75) {
+                hw.push(atom(&f));
+            }
+            if rng.coin(60) {
+                hw.push(atom(&x));
+            }
+            prog.items.push(mk(&h, hw, rng));
+            for (i, m) in ms.iter().enumerate() {
+                let next = if i + 1 < ms.len() { atom(&ms[i + 1]) } else { atom(&h) };
+                prog.items.push(mk(m, vec![next], rng));
+                // sometimes a member has a second way to hold: through a leaf outside the cycle
+                if atoms.len() > 3 + k && rng.coin(40) {
+                    let leaf = atoms[3 + k].clone();
+                    prog.items.retain(|it| match it {
+                        Item::Impl(im) => !(im.tr == leaf.1 && matches!(&im.self_ty, Ty::Adt(n, _) if *n == leaf.0)),
+                        _ => true,
+                    });
+                    let leaf_holds = rng.coin(70);
+                    if leaf_holds {
+                        prog.items.push(mk(&leaf, vec![], rng));
+                    }
+                    prog.items.push(mk(m, vec![atom(&leaf)], rng));
+                }
+            }
+            let dep = rng.pick(&ms).clone();
+            prog.items.push(mk(&x, vec![atom(&dep)], rng));
+            // F keeps having no impl
+        }
+    }
+    let mut goals = vec![];
+    for ty in &tys {
+        for (tn, _) in &tinfo {
+            goals.push(Goal::Pred(Pred { ty: Ty::Adt(ty.clone(), vec![]), tr: tn.clone(), args: vec![] }));
+        }
+    }
+    rng.shuffle(&mut goals);
+    goals.truncate(12);
+    for _ in 0..rng.range(0, 2) {
+        let a = rng.pick(&goals).clone();
+        let b = rng.pick(&goals).clone();
+        goals.push(Goal::And(vec![a, b]));
+    }
+    GenOut { prog, goals }
+}
+
 pub fn gen(rng: &mut Rng, profile: Profile) -> GenOut {
+    if profile == Profile::Cyc || profile == Profile::CycAuto {
+        return gen_cyc(rng, profile == Profile::CycAuto);
+    }
     let wild = profile == Profile::Wild;
     let coind = profile == Profile::Coinductive;
     let hyp = profile == Profile::Hyp;
@@ -789,7 +931,7 @@ pub fn gen(rng: &mut Rng, profile: Profile) -> GenOut {
     let mut impls: Vec<ImplDecl> = vec![];
     for _ in 0..(if enu { rng.range(6, 14) } else { rng.range(2, 8) }) {
         let (tn, tnp, tk) = rng.pick(&trait_info).clone();
-        let np = if enu { *rng.pick(&[0usize, 0, 0, 0, 1]) } else { *rng.pick(&[0usize, 0, 1, 1, 2]) };
+        let np = if enu { *rng.pick(&[0usize, 0, 0, 1, 1]) } else { *rng.pick(&[0usize, 0, 1, 1, 2]) };
         let params: Vec<String> = (0..np).map(|i| format!("T{}", i)).collect();
         let coish = tk != TraitKind::Ind;
         let mut self_ty = if f.blanket && np >= 1 && rng.coin(if coind && tk == TraitKind::Co { 4 } else { 20 }) && tk != TraitKind::Auto {
@@ -805,7 +947,24 @@ pub fn gen(rng: &mut Rng, profile: Profile) -> GenOut {
                 self_ty = Ty::Adt("V".into(), vec![self_ty]);
             }
         }
-        let args: Vec<Ty> = (0..tnp).map(|_| rand_ty(rng, &ar, 1, &params, true)).collect();
+        let mut args: Vec<Ty> = (0..tnp).map(|_| rand_ty(rng, &ar, 1, &params, true)).collect();
+        if !params.is_empty() && rng.coin(18) {
+            // non-linear header: the same parameter in two positions (`impl<T> Foo for Pair<T, T>`, `impl<T> Conv<T> for T`)
+            let p = Ty::Var(params[0].clone());
+            if let Some(a0) = args.get_mut(0) {
+                *a0 = p.clone();
+                if !matches!(self_ty, Ty::Var(_)) || tk != TraitKind::Auto {
+                    if rng.coin(50) && tk != TraitKind::Auto && f.blanket {
+                        self_ty = p.clone();
+                    }
+                }
+            }
+            if let Ty::Adt(n, a) = &self_ty {
+                if a.len() >= 2 {
+                    self_ty = Ty::Adt(n.clone(), a.iter().map(|_| p.clone()).collect());
+                }
+            }
+        }
         let mut used = vec![];
         self_ty.vars(&mut used);
         args.iter().for_each(|a| a.vars(&mut used));
@@ -813,7 +972,19 @@ pub fn gen(rng: &mut Rng, profile: Profile) -> GenOut {
         let positive = !(tk == TraitKind::Auto && f.neg && rng.coin(40));
         let mut wcs = vec![];
         if positive {
-            for _ in 0..(if enu && rng.coin(70) { 0 } else { rng.range(0, 2) }) {
+            if enu && !params.is_empty() && tk == TraitKind::Ind {
+                // guidance propagation between sibling where-clauses on the same parameter
+                let ind: Vec<&(String, usize, TraitKind)> = trait_info.iter().filter(|x| x.2 == TraitKind::Ind && x.1 == 0 && x.0 != tn).collect();
+                if !ind.is_empty() {
+                    for _ in 0..rng.range(1, 2) {
+                        let p = Pred { ty: Ty::Var(rng.pick(&params).clone()), tr: (*rng.pick(&ind)).0.clone(), args: vec![] };
+                        if !wcs.contains(&p) {
+                            wcs.push(p);
+                        }
+                    }
+                }
+            }
+            for _ in 0..(if enu && (rng.coin(70) || !wcs.is_empty()) { 0 } else { rng.range(0, 2) }) {
                 let cands: Vec<&(String, usize, TraitKind)> = if coish { trait_info.iter().filter(|x| x.2 != TraitKind::Ind).collect() } else { trait_info.iter().collect() };
                 if cands.is_empty() {
                     continue;
@@ -854,6 +1025,38 @@ pub fn gen(rng: &mut Rng, profile: Profile) -> GenOut {
     if f.overlap && !impls.is_empty() {
         let dup = rng.pick(&impls).clone();
         impls.push(dup);
+    }
+    if enu && rng.coin(35) {
+        // planted scenario: definite guidance must flow between sibling where-clauses. P is ambiguous; Q holds
+        // for `F<T> where T: P` (so `?X: Q` is ambiguous but definitely `F<_>`); R is ambiguous for an unknown but
+        // unique once `F<_>` is known; `impl<T> Tr for W<T> where T: Q, T: R` (clause order randomised).
+        let ind: Vec<String> = trait_info.iter().filter(|t| t.2 == TraitKind::Ind && t.1 == 0).map(|t| t.0.clone()).collect();
+        let unary: Vec<String> = ar.iter().filter(|a| a.1 == 1).map(|a| a.0.clone()).collect();
+        let nullary: Vec<String> = ar.iter().filter(|a| a.1 == 0).map(|a| a.0.clone()).collect();
+        if ind.len() >= 3 && !unary.is_empty() && nullary.len() >= 2 {
+            let (p, q, r) = (ind[0].clone(), ind[1].clone(), ind[2].clone());
+            let tr = if ind.len() >= 4 { ind[3].clone() } else { p.clone() };
+            let fcon = unary[0].clone();
+            let wcon = unary[unary.len() - 1].clone();
+            let (k1, k2) = (nullary[0].clone(), nullary[1].clone());
+            let k3 = nullary[nullary.len() - 1].clone();
+            impls.retain(|im| im.tr != q && im.tr != r && im.tr != p && !(im.tr == tr && matches!(&im.self_ty, Ty::Adt(n, _) if *n == wcon)));
+            let t0 = || Ty::Var("T0".to_string());
+            let n0 = |n: &String| Ty::Adt(n.clone(), vec![]);
+            let pr = |ty: Ty, t: &String| Pred { ty, tr: t.clone(), args: vec![] };
+            let mk = |tr: &String, params: Vec<String>, self_ty: Ty, wcs: Vec<Pred>| ImplDecl { params, tr: tr.clone(), args: vec![], self_ty, wcs, positive: true };
+            impls.push(mk(&p, vec![], n0(&k1), vec![]));
+            impls.push(mk(&p, vec![], n0(&k2), vec![]));
+            impls.push(mk(&q, vec!["T0".into()], Ty::Adt(fcon.clone(), vec![t0()]), vec![pr(t0(), &p)]));
+            impls.push(mk(&r, vec![], Ty::Adt(fcon.clone(), vec![n0(if rng.coin(50) { &k1 } else { &k2 })]), vec![]));
+            impls.push(mk(&r, vec![], n0(&k3), vec![]));
+            let mut wcs = vec![pr(t0(), &q), pr(t0(), &r)];
+            rng.shuffle(&mut wcs);
+            if tr != p || wcon != fcon {
+                impls.push(mk(&tr, vec!["T0".into()], Ty::Adt(wcon.clone(), vec![t0()]), wcs));
+            }
+            rng.shuffle(&mut impls);
+        }
     }
     for im in impls {
         prog.items.push(Item::Impl(im));
@@ -978,7 +1181,7 @@ fn gen_goal(rng: &mut Rng, prog: &Prog, ar: &[(String, usize)], traits: &[(Strin
     let mut cx = Cx { ar, traits, ctr: 0, open: !closed, wild, coind: profile == Profile::Coinductive, hyp: profile == Profile::Hyp, tainted, evars: vec![] };
     if profile == Profile::Enum {
         // enumeration goals: predicates that really mention the unknowns
-        let n = if rng.coin(30) { 2 } else { 1 };
+        let n = if rng.coin(40) { 2 } else { 1 };
         let vs: Vec<String> = (1..=n).map(|i| format!("X{}", i)).collect();
         cx.evars = vs.clone();
         let inductive: Vec<&(String, usize, TraitKind)> = traits.iter().filter(|t| t.2 == TraitKind::Ind).collect();
@@ -992,7 +1195,7 @@ fn gen_goal(rng: &mut Rng, prog: &Prog, ar: &[(String, usize)], traits: &[(Strin
                     Ty::Var(vs[0].clone())
                 } else {
                     let (n, k) = (*rng.pick(&gen)).clone();
-                    Ty::Adt(n, (0..k).map(|_| Ty::Var(rng.pick(&vs).clone())).collect())
+                    Ty::Adt(n, (0..k).map(|i| Ty::Var(if vs.len() > 1 && i < vs.len() { vs[i].clone() } else { rng.pick(&vs).clone() })).collect())
                 }
             };
             let args = (0..t.1).map(|_| if rng.coin(50) { Ty::Var(rng.pick(&vs).clone()) } else { ty(rng, &cx, 1, &[]) }).collect();
@@ -1070,6 +1273,26 @@ pub fn has_overlapping_impls(p: &Prog) -> bool {
             let mut m = BTreeMap::new();
             if unify_ty(&sa, &sb, &mut m) && aa.iter().zip(ab.iter()).all(|(x, y)| unify_ty(x, y, &mut m)) {
                 return true;
+            }
+        }
+    }
+    false
+}
+
+/// does the trait where-clause graph (supertraits, parameter bounds) contain a cycle?
+pub fn implied_bound_cycle(p: &Prog) -> bool {
+    let names: Vec<String> = p.traits().map(|t| t.name.clone()).collect();
+    let edges = |n: &str| -> Vec<String> { p.tr(n).map(|t| t.wcs.iter().map(|w| w.tr.clone()).collect()).unwrap_or_default() };
+    for start in &names {
+        let mut seen: Vec<String> = vec![];
+        let mut work = edges(start);
+        while let Some(n) = work.pop() {
+            if &n == start {
+                return true;
+            }
+            if !seen.contains(&n) {
+                seen.push(n.clone());
+                work.extend(edges(&n));
             }
         }
     }
